@@ -35,7 +35,8 @@ CONSTANTS
     Limit,        \* [kind -> max number of live objects of that kind]
     Ops,          \* enabled action families
     Faults,       \* enabled classes of refused calls
-    Script        \* scripted prefix: the first Len(Script) actions are these (<< >> for none)
+    Script,       \* scripted prefix: the first Len(Script) actions are these (<< >> for none)
+    CopyKeep      \* id policies of copies: subset of BOOLEAN (TRUE = keep the ids)
 
 FILE == 0
 None == 0
@@ -356,6 +357,44 @@ Del == \/ \E o \in objs : Delete(o)
        \/ \E p \in objs \cup {FILE}, k \in KindSet : DeleteAbsent(p, k)
 
 (***************************************************************************)
+(* copies (C20): create_block / create_data_array / create_tag /           *)
+(* create_multi_tag / create_property with copy_from, copy_section.        *)
+(* The whole owned subtree is duplicated; links among the copied entities  *)
+(* are remapped to the copies; entity ids are kept or all replaced by      *)
+(* fresh ones.  Links that leave the copied subtree are left open (the     *)
+(* library gives the copy a private duplicate of the target), so copies    *)
+(* are generated only for subtrees that are closed under links.            *)
+(***************************************************************************)
+Copyable == { "block", "array", "tag", "mtag", "section", "property" }
+Closed(S) == \A x \in S : /\ \A l \in ListNames : \A i \in 1..Len(rec[x].ls[l]) : rec[x].ls[l][i] \in S
+                          /\ \A r \in RoleNames : rec[x].rl[r] # None => rec[x].rl[r] \in S
+RankIn(x, S) == Cardinality({ y \in S : y <= x })
+
+Copy(src, dest, n, keepId) ==
+    LET S == Sub(src)
+        k == Kind(src)
+        new(x) == next + RankIn(x, S) - 1
+        a == [name |-> "Copy", kind |-> k, src |-> src, dest |-> dest, n |-> n, keep |-> keepId, new |-> next, out |-> "ok"]
+        cp(x) == [rec[x] EXCEPT !.owner = IF x = src THEN dest ELSE new(rec[x].owner),
+                               !.name = IF x = src THEN n ELSE rec[x].name,
+                               !.eid = IF keepId THEN rec[x].eid ELSE new(x),
+                               !.ls = [l \in ListNames |-> [i \in 1..Len(rec[x].ls[l]) |-> new(rec[x].ls[l][i])]],
+                               !.rl = [r \in RoleNames |-> IF rec[x].rl[r] = None THEN None ELSE new(rec[x].rl[r])]]
+    IN
+    /\ CanStep /\ src \in objs /\ k \in Copyable /\ dest \in objs \cup {FILE} /\ Kind(dest) \in OwnerKinds(k)
+    /\ dest \notin S
+    /\ IF NameTaken(dest, k, n) THEN "NameExists" \in Faults /\ Refuse(a, "refused:NameExists")
+       ELSE /\ Closed(S) /\ next + Cardinality(S) - 1 <= MaxObj
+            /\ \A kk \in KindSet : Count(kk) + Cardinality({ x \in S : rec[x].kind = kk }) <= Limit[kk]
+            /\ objs' = objs \cup { new(x) : x \in S }
+            /\ rec' = [o \in objs \cup { new(x) : x \in S } |->
+                          IF o \in objs THEN rec[o] ELSE cp(CHOOSE x \in S : new(x) = o)]
+            /\ next' = next + Cardinality(S)
+            /\ UNCHANGED << clock, auto, fts >> /\ Log(a)
+
+CopyOps == \E src \in objs, dest \in objs \cup {FILE}, n \in Names, keep \in CopyKeep : Copy(src, dest, n, keep)
+
+(***************************************************************************)
 (* specification                                                           *)
 (***************************************************************************)
 Init == /\ objs = {} /\ rec = << >> /\ next = 1 /\ clock = 1 /\ auto = TRUE
@@ -369,6 +408,7 @@ Next == \/ ("create" \in Ops /\ Create)
         \/ ("time" \in Ops /\ Time)
         \/ ("link" \in Ops /\ Link)
         \/ ("delete" \in Ops /\ Del)
+        \/ ("copy" \in Ops /\ CopyOps)
 
 Spec == Init /\ [][Next]_vars
 
@@ -448,6 +488,35 @@ NoAutoNoChange == [][(~auto /\ ~IsAct("Force")) =>
     \A o \in objs \cap objs' : rec'[o].u = rec[o].u /\ rec'[o].c = rec[o].c]_vars
 ListedAttrStamps == [][(auto /\ IsAct("SetAttr") /\ ~Refused /\ Kind(act'.o) # "property") =>
     rec'[act'.o].u = clock]_vars
+
+
+\* C20: a copy is complete (same content, recursively), its internal links point to the copies,
+\* nothing else changes, and the ids are kept or all fresh
+CopyComplete == [][(IsAct("Copy") /\ ~Refused) =>
+    LET src == act'.src
+        S == Sub(src)
+        new(x) == act'.new + RankIn(x, S) - 1 IN
+    /\ objs' = objs \cup { new(x) : x \in S }
+    /\ \A o \in objs : rec'[o] = rec[o]                                    \* the source and everything else: untouched
+    /\ \A x \in S :
+         LET y == new(x) IN
+         /\ rec'[y].kind = rec[x].kind /\ rec'[y].typ = rec[x].typ /\ rec'[y].def = rec[x].def
+         /\ rec'[y].dtok = rec[x].dtok /\ rec'[y].dims = rec[x].dims
+         /\ rec'[y].name = (IF x = src THEN act'.n ELSE rec[x].name)
+         /\ rec'[y].owner = (IF x = src THEN act'.dest ELSE new(rec[x].owner))
+         /\ \A l \in ListNames : Len(rec'[y].ls[l]) = Len(rec[x].ls[l]) /\
+               \A i \in 1..Len(rec[x].ls[l]) : rec'[y].ls[l][i] = new(rec[x].ls[l][i])    \* links remapped
+         /\ \A r \in RoleNames : rec'[y].rl[r] = (IF rec[x].rl[r] = None THEN None ELSE new(rec[x].rl[r]))
+         /\ rec'[y].eid = (IF act'.keep THEN rec[x].eid ELSE y)]_vars
+\* fresh ids are unique in the file
+FreshIdsUnique == (TRUE \notin CopyKeep) => EidUnique
+\* C20: after a copy, whatever happens to one side is not visible on the other: every action changes records
+\* only of the objects it names (their owned subtree and objects linking to them), never by way of a copy relation;
+\* stated as: an action on an object leaves every object outside the subtrees of its arguments and outside the
+\* link neighbourhood unchanged in content (typ, def, dtok)
+CopyIndependent == [][\A o \in objs \cap objs' :
+    (rec'[o].typ # rec[o].typ \/ rec'[o].def # rec[o].def \/ rec'[o].dtok # rec[o].dtok) =>
+        (act'.name \in { "SetAttr", "WriteData" } /\ act'.o = o)]_vars
 
 (***************************************************************************)
 (* export                                                                  *)
